@@ -359,6 +359,7 @@ def _s_enc_plain(data, se):
             return PB(v.tag, 4, v.lo, v.hi)
         return ("plain-stat", data[1])
     if isinstance(data, _Categories):
+        ctx.dict_values = getattr(data, "vals", None)
         return Seg("dict-values", ctx.dict_len)
     return Seg("values", ctx.val_lens[_page_index()])
 
@@ -765,11 +766,30 @@ class _ValueIndex:
         return min(self.vals) if self.vals else None
 
 
+class _CatList(_Categories):
+    """the dtype's category list as an Index: len, max()/min() by value"""
+
+    def __init__(self, vals):
+        _Categories.__init__(self, len(vals))
+        self.vals = list(vals)
+
+    def max(self):
+        return max(self.vals) if self.vals else None
+
+    def min(self):
+        return min(self.vals) if self.vals else None
+
+
 class _CatAcc(_Cat):
+    @property
+    def categories(self):
+        return _CatList(self.s.cats_)
+
     def remove_unused_categories(self):
+        # pandas contract: the same rows as a categorical whose dtype lists only the labels that occur
         s = self.s
         kept = [c for c, p in zip(s.cats_, s.present_) if p]
-        return _Pruned(_ValueIndex(kept))
+        return _CatSeries(kept, [True] * len(kept), s.n, s.rpp, lo=s.lo, hi=s.hi, stripped=s.stripped)
 
 
 class _Acc2:
@@ -834,6 +854,61 @@ def replay_h_cat_stats(c0, c1, c2, p0, p1, p2, n):
             return True, "categorical column with categories %r holding values %r: statistics say min=%r max=%r" % (
                 cats, sorted(set(vals)), mn, mx)
         return False, "statistics exact"
+    finally:
+        shutil.rmtree(d, ignore_errors=True)
+
+
+def h_cat_dictionary(c0: int, c1: int, c2: int, p0: bool, p1: bool, p2: bool, n: int, stats: bool) -> bool:
+    """
+    pre: c0 != c1 and c1 != c2 and c0 != c2 and 1 <= n < LIM
+    pre: p0 or p1 or p2
+    post: __return__
+    """
+    # the dictionary page of a categorical chunk lists the categories of the column's dtype, all of them and in the
+    # dtype's order - whichever of them occur in this batch and whatever the statistics setting: batches written from
+    # one dtype (row groups, appends) then carry identical dictionaries
+    data = _CatSeries([c0, c1, c2], [p0, p1, p2], n, n)
+    f = SymFile(4)
+    f.seek(4)
+    ctx = Ctx([20, 20, 20, 20], [5, 5, 5], [n, n, n], [1, 1, 1], 24, 9)
+    ctx.dict_values = None
+    wc = build(ctx, f)
+    se = parquet_thrift.SchemaElement(type=parquet_thrift.Type.INT64, name="x", repetition_type=1)
+    chunk = wc(f, data, se, compression=None, datapage_version=1, stats=stats)
+    if not ctx.headers or ctx.headers[0][1].type != parquet_thrift.PageType.DICTIONARY_PAGE:
+        return False
+    dph = ctx.headers[0][1].dictionary_page_header
+    ncat = [kv.value for kv in chunk.meta_data.key_value_metadata or [] if kv.key == "num_categories"]
+    return dph.num_values == 3 and ctx.dict_values == [c0, c1, c2] and ncat == ["3"]
+
+
+def replay_h_cat_dictionary(c0, c1, c2, p0, p1, p2, n, stats):
+    """two batches of one CategoricalDtype - the witness's labels, then all of them - written and appended with the
+    witness's statistics setting, read back"""
+    import os, shutil, tempfile
+    import pandas as pd
+    import fastparquet
+    cats = [c0, c1, c2]
+    present = [c for c, p in zip(cats, [p0, p1, p2]) if p]
+    dt = pd.CategoricalDtype(cats)
+    b1 = [present[i % len(present)] for i in range(4)]
+    b2 = [cats[i % 3] for i in range(4)]
+    d = tempfile.mkdtemp(prefix="c07-")
+    try:
+        for scheme in ("simple", "hive"):
+            fn = os.path.join(d, "ds-" + scheme)
+            fastparquet.write(fn, pd.DataFrame({"x": pd.Series(b1, dtype=dt)}), stats=stats, file_scheme=scheme)
+            fastparquet.write(fn, pd.DataFrame({"x": pd.Series(b2, dtype=dt)}), stats=stats, file_scheme=scheme,
+                              append=True)
+            try:
+                out = [int(v) for v in fastparquet.ParquetFile(fn).to_pandas()["x"]]
+            except Exception as ex:
+                return True, "two batches of categories %r (first holding only %r, stats=%r, %s) cannot be read: " \
+                             "%s: %s" % (cats, present, stats, scheme, type(ex).__name__, str(ex)[:80])
+            if out != b1 + b2:
+                return True, "two batches of categories %r (first holding only %r, stats=%r, %s): rows %r read " \
+                             "back as %r" % (cats, present, stats, scheme, b1 + b2, out)
+        return False, "labels intact"
     finally:
         shutil.rmtree(d, ignore_errors=True)
 
